@@ -85,10 +85,16 @@ func (t *ReuseConnTransport) ExchangeContext(ctx context.Context, m []byte) (*dn
 	retry := 0
 	for {
 		var isNewConn bool
-		c, err := t.getIdleConn()
-		if err != nil {
-			errs = append(errs, err)
-			return nil, joinErr(errs)
+		var c *reusableConn
+		// The pool may hold more dead connections (e.g. the server was
+		// restarted) than there are retries. So the last attempt always
+		// dials a new connection.
+		if retry <= 5 {
+			c, err = t.getIdleConn()
+			if err != nil {
+				errs = append(errs, err)
+				return nil, joinErr(errs)
+			}
 		}
 		if c == nil {
 			isNewConn = true
@@ -102,7 +108,7 @@ func (t *ReuseConnTransport) ExchangeContext(ctx context.Context, m []byte) (*dn
 		resp, err := t.exchangeConnCtx(ctx, payload, c)
 		if err != nil {
 			errs = append(errs, err)
-			if !isNewConn && retry <= 5 && !ctxIsDone(ctx) {
+			if !isNewConn && !ctxIsDone(ctx) {
 				retry++
 				continue // retry if c is a reused connection.
 			}
